@@ -24,18 +24,11 @@ def queue_ops(ctx, field):
     return out
 
 
-def run(ctx):
+def fifo_ends(ctx, queues, rule='fifo-ends'):
+    """every insertion into the queue uses one end and every removal the opposite end (oldest first); shared with C27, whose
+    priority order is established when the pairs are queued and must survive the queues"""
     r, db = ctx.r, ctx.db
-    r.explanation = ('(i) FIFO ends: every insertion into publish_request_queue / transmission_queue / publish_response_queue uses one end and '
-                     'every removal the opposite end (oldest first). (ii) linear pairing: each queued PublishResponseEntry is built by '
-                     'make_publish_response from a PublishRequestEntry that was popped from the transmission queue, into which it was '
-                     'moved from publish_request_queue.pop_back(). (iii) must-consume: in Subscription::handle_state_result every arm in '
-                     'which a drained notification can be present hands it to enqueue_notification (or provably panics); an arm that '
-                     'just lets it drop loses sampled data changes. Exactly-once delivery over histories is not decided.')
-    r.rule_text = 'E6 queue-end agreement, argument provenance, and per-arm must-consume over MIR'
-    # ---------------- (i)
-    rule = 'fifo-ends'
-    for q in ('publish_request_queue', 'transmission_queue', 'publish_response_queue'):
+    for q in queues:
         ops = queue_ops(ctx, q)
         ins = {INS[o] for b, o, c in ops if o in INS}
         rem = {REM[o] for b, o, c in ops if o in REM}
@@ -48,6 +41,19 @@ def run(ctx):
             r.ok(rule, key, 'inserted at the %s, removed %s: oldest first' % (list(ins)[0], 'from the ' + list(rem)[0] if rem else 'by draining the whole queue front-to-back'), loc=ops[0][2].loc)
         else:
             r.fail(rule, key, '%s is not used as a FIFO (insert ends %s, remove ends %s, other ops %s)' % (q, sorted(ins), sorted(rem), other), loc=ops[0][2].loc)
+
+
+def run(ctx):
+    r, db = ctx.r, ctx.db
+    r.explanation = ('(i) FIFO ends: every insertion into publish_request_queue / transmission_queue / publish_response_queue uses one end and '
+                     'every removal the opposite end (oldest first). (ii) linear pairing: each queued PublishResponseEntry is built by '
+                     'make_publish_response from a PublishRequestEntry that was popped from the transmission queue, into which it was '
+                     'moved from publish_request_queue.pop_back(). (iii) must-consume: in Subscription::handle_state_result every arm in '
+                     'which a drained notification can be present hands it to enqueue_notification (or provably panics); an arm that '
+                     'just lets it drop loses sampled data changes. Exactly-once delivery over histories is not decided.')
+    r.rule_text = 'E6 queue-end agreement, argument provenance, and per-arm must-consume over MIR'
+    # ---------------- (i)
+    fifo_ends(ctx, ('publish_request_queue', 'transmission_queue', 'publish_response_queue'))
     # ---------------- (ii)
     rule = 'linear-pairing'
     tb = db.find_bodies(SUBS + r'tick$')
